@@ -11,7 +11,7 @@ CHECKS = {
    note="Assumes the VerifAdvance hook ages entries exactly like elapsed time; trusted: TLC, CommunityModules, the Go driver that logs raw return values/Keys()/Stats()."),
  "C16": dict(cat="model_checking", ref="DESIGN.md section 5, C16",
    tech="TLA+ spec History.tla: TLC exhaustive model check over add/save/load/clear/foreign-file histories + TLC-derived tours on the real SearchHistory + TLC trace validation of random executions",
-   text="TLC explores all histories (<= 4/6 steps) of add/save/load/clear with the on-disk file replaced by missing/empty/garbage/valid files carrying nonsensical maxima, checking that recording never crashes, keeps the newest entry, collapses immediate repeats and that load returns what was saved; the transition relation is replayed on the real history.SearchHistory and every recorded execution (tours and long random ones with hostile query strings and damaged files) is validated by TLC, including the recent/top/stats views.",
+   text="TLC explores all histories (<= 4/6 steps) of add/save/load/clear with the on-disk file replaced by missing/empty/garbage/valid files carrying nonsensical maxima, checking that recording never crashes, keeps the newest entry, collapses immediate repeats and that load returns what was saved; the transition relation is replayed on the real history.SearchHistory and every recorded execution (tours and long random ones with hostile query strings and damaged files) is validated by TLC, including the recent/top/stats views. Foreign files also carry equal, decreasing, missing and mixed timestamps.",
    note="Entry identity = digest of all fields; garbage-file outcomes are left free except that recording must keep working; trusted: TLC, Go driver."),
  "C18": dict(cat="model_checking", ref="DESIGN.md section 5, C18",
    tech="TLA+ spec Metrics.tla: TLC exhaustive model check (all tag iteration orders) + TLC trace validation of executions recorded from the real Collector / PerformanceMonitor, incl. concurrent bursts",
@@ -31,15 +31,15 @@ CHECKS = {
    note="Map iteration order is randomised by the Go runtime on every loop, so repetition samples the 'scheduler'; exhaustiveness is over scenarios, not over iteration orders."),
  "C01": dict(cat="model_checking", ref="DESIGN.md section 5, C01",
    tech="TLA+ spec SearchFlow.tla: TLC model-checks the staged engine over the full scenario cross product and enumerates it; every scenario is executed on the real entry points (incl. the real binary for the CLI path) and TLC validates the recorded answers against TraceSearch.tla",
-   text="TLC explores the abstract engine pipeline (score, typo fallback, recovery, limit) for every combination of entry point, limit class, NLP/fuzzy/threshold/pipeline/platform/boost options, query kind and corpus, checking the bound at the design level (defect switches FuzzyCap/RecoverCap regenerate the known counterexamples); the enumerated scenarios (stratified sample in quick, all in thorough) plus tie-heavy and shipped-database cases run on the real code through SearchUniversal, Search, the pipeline search, the cached and monitored wrappers and the real wtf binary, and TLC checks for each recorded answer: length <= limit in force, members of the database, no duplicates, finite non-negative scores, non-increasing order.",
+   text="TLC explores the abstract engine pipeline (score, typo fallback, recovery, limit) for every combination of entry point, limit class, NLP/fuzzy/threshold/pipeline/platform/boost options, query kind and corpus, checking the bound at the design level (defect switches FuzzyCap/RecoverCap regenerate the known counterexamples); the enumerated scenarios (stratified sample in quick, all in thorough) plus tie-heavy and shipped-database cases run on the real code through SearchUniversal, Search, the pipeline search, the cached and monitored wrappers and the real wtf binary, and TLC checks for each recorded answer: length <= limit in force, members of the database, no duplicates, finite non-negative scores, non-increasing order. Most cases are preceded by a priming request (same query, one option changed) on the same database / cache object, and limits 1..12 are run right after a no-limit or larger-limit request on the cached and monitored wrappers.",
    note="Scenario classes are exhaustive, strings within a class are representatives; default limits are measured, not hard-coded."),
  "C04": dict(cat="model_checking", ref="DESIGN.md section 5, C04",
    tech="TLA+ specs Corpus.tla (eligibility predicates) + SearchFlow.tla: TLC model check and scenario enumeration; scenarios executed on the real engine; TLC validates every result's platform/pipeline class against the predicates",
-   text="The eligibility predicates of the statement are written once in Corpus.tla; TLC checks them on the abstract engine for every flag combination and path, and evaluates the same predicates on the attributes of every result the real engine returns for the enumerated scenarios over a corpus with one document per (declared platforms x tool x pipeline) combination, on the lexical, NLP, typo-fallback, cached, pipeline and CLI paths, plus shipped-database queries.",
+   text="The eligibility predicates of the statement are written once in Corpus.tla; TLC checks them on the abstract engine for every flag combination and path, and evaluates the same predicates on the attributes of every result the real engine returns for the enumerated scenarios over a corpus with one document per (declared platforms x tool x pipeline) combination, on the lexical, NLP, typo-fallback, cached, pipeline and CLI paths, plus shipped-database queries. Most cases are preceded by a priming request with one filter option changed on the same database / cache object; a second corpus holds made-up programs whose names begin or end like a recognised tool.",
    note="Generous classification (unknown documents never checked); host platform linux."),
  "C07": dict(cat="model_checking", ref="DESIGN.md section 5, C07",
    tech="TLA+ spec SearchFlow.tla (Fallback stage and its invariants): TLC model check + scenario enumeration; paired real searches (typo tolerance on/off) validated by TLC against TraceSearch.tla",
-   text="TLC checks on the abstract engine that the fallback stage is enabled only when nothing was scored, returns only sufficiently good subsequence matches and is complete; for every enumerated scenario with typo tolerance on, the real search is run with and without it and TLC checks the recorded pair: identical answers whenever the plain search finds something, otherwise every result contains the query as a subsequence, meets the requested threshold, best first, and an eligible subsequence match is never left unanswered when no threshold is set.",
+   text="TLC checks on the abstract engine that the fallback stage is enabled only when nothing was scored, returns only sufficiently good subsequence matches and is complete; for every enumerated scenario with typo tolerance on, the real search is run with and without it and TLC checks the recorded pair: identical answers whenever the plain search finds something, otherwise every result contains the query as a subsequence, meets the requested threshold, best first, and an eligible subsequence match is never left unanswered when no threshold is set. A corpus with one made-up word per (declared platforms x tool) entry decides the completeness clause exactly for every platform class; cases are preceded by the same request with a filter option changed on the same Database.",
    note="Match quality recomputed with the matcher library per result; threshold 0 = unset."),
  "C20": dict(cat="model_checking", ref="DESIGN.md section 5, C20",
    tech="TLA+ spec SearchFlow.tla enumerates scenarios with TLC; each is executed with the query and its admissible case re-spellings (and white-space paddings through the real binary); TLC validates on the recorded events that all answers are identical (TraceSearch.tla)",
@@ -51,7 +51,7 @@ CHECKS = {
    note="Capacity/TTL over-approximated in the trace spec; logical clock via VerifAdvance."),
  "C11": dict(cat="model_checking", ref="DESIGN.md section 5, C11",
    tech="TLA+ specs Conc.tla (micro-step lock model, exhaustive) and TraceLRUConc.tla (linearisability of recorded concurrent histories against LRU.tla via silent Lin steps, depth-first TLC); concurrent searches recorded under the Go race detector and validated by TLC (TraceConcSearch.tla)",
-   text="TLC explores all interleavings of the micro-steps of cache lookups, statistics reads, metric increments and get-or-create under the reader/writer lock (lock downgrade, non-atomic increment and missing re-check are design switches that regenerate lost-update counterexamples); hundreds of short concurrent histories recorded from the real LRUCache are checked for linearisability against the atomic LRU specification; goroutines searching one database directly, through the cache and through the monitor while others invalidate, sweep and read statistics run under the race detector, and TLC checks that every answer equals the answer obtained alone and that the monitor's totals equal the number of monitored searches.",
+   text="TLC explores all interleavings of the micro-steps of cache lookups, statistics reads, metric increments and get-or-create under the reader/writer lock (lock downgrade, non-atomic increment and missing re-check are design switches that regenerate lost-update counterexamples); hundreds of short concurrent histories recorded from the real LRUCache are checked for linearisability against the atomic LRU specification; goroutines searching one database directly, through the cache and through the monitor while others invalidate, sweep and read statistics run under the race detector, and TLC checks that every answer equals the answer obtained alone and that the monitor's totals equal the number of monitored searches. 4,000 (40,000) further tiny histories release 2-4 goroutines from a spin barrier to store the same new key, followed by a sequential epilogue (sizes, every key, forced evictions).",
    note="Data races are decided by the race detector (outside the specification); schedules are sampled."),
  "C13": dict(cat="model_checking", ref="DESIGN.md section 5, C13",
    tech="TLA+ specs SearchFlow.tla (scenario enumeration) + TraceSearch.tla P13 for paired real searches with/without boosts; Context.tla + MCContext (every subset of a marker palette x file content classes) for directory analysis, each directory materialised and analysed by the real code, validated by TLC",
@@ -83,7 +83,7 @@ CHECKS = {
    note="Classes, not bytes: the weakest fit of the family, as DESIGN section 6 says; one representative per class."),
  "C17": dict(cat="model_checking", ref="DESIGN.md section 5, C17",
    tech="TLA+ spec Cli.tla (parse/validate/load/search/recover/record/format/exit stages over scenario classes): TLC model check and scenario enumeration; scenarios executed by the real binary; TLC validates each recorded run (TraceCli.tla)",
-   text="TLC explores the stage pipeline of one CLI run for every combination of sub-command, argument shape, query class, --limit class, --format, verbosity, colour switch, platform flags and database class (194,832 scenarios), checking at the design level that every run ends, prints at most the limit in force and records exactly one history entry per accepted search; a pairwise cover plus a random sample of the scenarios is executed by the real binary in an isolated home and TLC checks each run: no crash; for accepted searches the printed commands equal the engine's answer in order (list, table, JSON), the JSON block parses with one object per result, the history gains exactly one newest entry for the cleaned query; rejected searches print nothing and record nothing; no escape sequence with --no-color / NO_COLOR.",
+   text="TLC explores the stage pipeline of one CLI run for every combination of sub-command, argument shape, query class, --limit class, --format, verbosity, colour switch, platform flags and database class (194,832 scenarios), checking at the design level that every run ends, prints at most the limit in force and records exactly one history entry per accepted search; a pairwise cover plus a random sample of the scenarios is executed by the real binary in an isolated home and TLC checks each run: no crash; for accepted searches the printed commands equal the engine's answer in order (list, table, JSON), the JSON block parses with one object per result, the history gains exactly one newest entry for the cleaned query; rejected searches print nothing and record nothing; no escape sequence with --no-color / NO_COLOR. Every other accepted search is repeated at once with --limit 1 in the same home directory and the newest history entry is compared with what was printed.",
    note="Sampled, not exhaustive, at the process level; oracle replays the documented option set in-process."),
 }
 NOT_APPLICABLE = {}
